@@ -62,6 +62,7 @@ func init() {
 		target{"npm.Resolve", func(x in) bool { return resolveAll(resolve.NPM, x.A) }},
 		target{"maven.Resolve", func(x in) bool { return resolveAll(resolve.Maven, x.A) }},
 		target{"pypi.Resolve", func(x in) bool { return resolveAll(resolve.PyPI, x.A) }},
+		target{"pypi.Resolve(marker)", func(x in) bool { return resolveAll(resolve.PyPI, x.A) }},
 	)
 }
 
@@ -168,13 +169,40 @@ func hostileUniverse(sysName string) *rapid.Generator[string] {
 
 func resolversProp(t *rapid.T) {
 	for _, tg := range targets["resolvers"] {
+		if tg.name == "pypi.Resolve(marker)" {
+			continue
+		}
 		sysName := strings.SplitN(tg.name, ".", 2)[0]
 		x := in{A: hostileUniverse(sysName).Draw(t, "universe")}
 		evalTarget(t, "resolvers", tg, x, true)
 	}
 }
 
+// markerUniverse is the smallest universe that makes the PyPI resolver parse
+// and evaluate one environment marker: every operator against every kind of
+// operand (version, wildcard, non-version, variable, literal on either side).
+func markerUniverse() *rapid.Generator[string] {
+	return rapid.Custom(func(t *rapid.T) string {
+		mk, _ := drawInput(t, gen.Marker(gen.MarkerOpts{Extras: []string{"x"}, MaxDepth: 2}), "marker")
+		mk = strings.NewReplacer("\n", " ", "\t", " ", "#", "", "|", "").Replace(mk)
+		ed := ""
+		if rapid.IntRange(0, 3).Draw(t, "hasextras") == 0 {
+			ed = " EnabledDependencies x"
+		}
+		return "a\n\t1.0.0\n\t\tEnvironment " + fmt.Sprintf("%q", mk) + ed + "|b@\nb\n\t1.0.0\n"
+	})
+}
+
+func markerProp(t *rapid.T) {
+	for _, tg := range targets["resolvers"] {
+		if tg.name == "pypi.Resolve(marker)" {
+			evalTarget(t, "resolvers", tg, in{A: markerUniverse().Draw(t, "universe")}, true)
+		}
+	}
+}
+
 func TestResolvers(t *testing.T) { rec.Check(t, "resolvers", ev.N(2000, 300000), resolversProp) }
+func TestMarkers(t *testing.T) { rec.Check(t, "resolvers-markers", ev.N(20000, 1500000), markerProp) }
 
 // ---- group: API-backed client over a fake Insights service ----------------------
 
